@@ -320,3 +320,21 @@ def translate(repo, relpath, qualname, name, params, rettype, **kw):
     sigs += ["(%s : R)" % v for v in tr.self_attrs.values()]
     sig = " ".join(sigs)
     return "Definition %s %s : %s :=\n  %s.\n" % (name, sig, rettype, body)
+
+
+def translate_kwarg(repo, relpath, qualname, kwarg, name, params, rettype, **kw):
+    """The expression passed as keyword argument [kwarg] in the first call that has one, inside function [qualname]
+    (e.g. medium_wavevec=2*np.pi/(illum_wavelen/medium_index) in calc_cross_sections).  [params]: the python names it
+    may mention, as (name, 'R')."""
+    path = os.path.join(repo, relpath)
+    with open(path) as f:
+        tree = ast.parse(f.read())
+    fn = find_function(tree, qualname)
+    found = [k for n in ast.walk(fn) if isinstance(n, ast.Call) for k in n.keywords if k.arg == kwarg]
+    if len(found) != 1:
+        raise Unsupported("%d calls with keyword %s in %s" % (len(found), kwarg, qualname))
+    tr = Tr(**kw)
+    env = frozenset(p for p, k in params if k == "R")
+    body = tr.ex(found[0].value, env)
+    sig = " ".join("(%s : R)" % p for p, k in params)
+    return "Definition %s %s : %s :=\n  %s.\n" % (name, sig, rettype, body)
